@@ -7,6 +7,7 @@ import (
 	"github.com/brutella/hc/verifhook"
 	"net"
 	"sync"
+	"sync/atomic"
 	"time"
 
 	"bufio"
@@ -35,8 +36,14 @@ type Connection struct {
 	// Bytes which were read unencrypted while the session switched to encryption
 	pending []byte
 
+	// Unencrypted bytes which were read from the connection and not handed out yet
+	plain []byte
+
 	// Error which ended decrypting incoming data
 	readErr error
+
+	// Number of frames which were received and decrypted
+	decryptedFrames uint64
 
 	// Serializes writes because responses and notifications are written by different goroutines
 	writeMutex sync.Mutex
@@ -117,6 +124,7 @@ func (con *Connection) DecryptedRead(b []byte) (int, error) {
 				var decrypted io.Reader
 				decrypted, err = con.getDecrypter().Decrypt(bytes.NewReader(frame))
 				if err == nil {
+					atomic.AddUint64(&con.decryptedFrames, 1)
 					if plain, _ := ioutil.ReadAll(decrypted); len(plain) > 0 {
 						con.readBuffer = bytes.NewReader(plain)
 					}
@@ -144,6 +152,15 @@ func (con *Connection) DecryptedRead(b []byte) (int, error) {
 	}
 
 	return n, err
+}
+
+// ReceivedEncrypted returns true when at least one encrypted frame was received.
+//
+// Bytes which follow the last pair verify request in the same segment are read (and buffered by
+// the http server) before the session is encrypted. A request in those bytes did not come through
+// the encrypted session, although the session is encrypted by the time the request is handled.
+func (con *Connection) ReceivedEncrypted() bool {
+	return atomic.LoadUint64(&con.decryptedFrames) > 0
 }
 
 // Write writes bytes to the connection.
@@ -178,18 +195,42 @@ func (con *Connection) Write(b []byte) (int, error) {
 func (con *Connection) Read(b []byte) (int, error) {
 	verifhook.At("conn.read.enter")
 	if con.getDecrypter() != nil {
+		if len(con.plain) > 0 {
+			// Everything which was received behind the request which finished pair verify
+			// is the beginning of the encrypted data, even if it arrived together with that request.
+			con.pending = append(con.pending, con.plain...)
+			con.plain = nil
+		}
 		return con.DecryptedRead(b)
 	}
 
-	n, err := con.connection.Read(b)
-	if n > 0 && con.getDecrypter() != nil {
-		// The session switched to encryption while this read was pending.
-		// The bytes are the beginning of the first encrypted frame.
-		con.pending = append(con.pending, b[:n]...)
-		return con.DecryptedRead(b)
+	if len(b) == 0 {
+		return 0, nil
 	}
 
-	return n, err
+	if len(con.plain) == 0 {
+		buf := make([]byte, 4096)
+		n, err := con.connection.Read(buf)
+		if n > 0 && con.getDecrypter() != nil {
+			// The session switched to encryption while this read was pending.
+			// The bytes are the beginning of the first encrypted frame.
+			con.pending = append(con.pending, buf[:n]...)
+			return con.DecryptedRead(b)
+		}
+
+		if n == 0 {
+			return 0, err
+		}
+		con.plain = buf[:n]
+	}
+
+	// Unencrypted bytes are handed out one at a time. The http server then never holds bytes
+	// behind the end of the request it handles, and no request which was sent behind the last
+	// pair verify request is handled as if it had come through the encrypted session.
+	b[0] = con.plain[0]
+	con.plain = con.plain[1:]
+
+	return 1, nil
 }
 
 // Close closes the connection and deletes the related session from the context.
